@@ -42,6 +42,7 @@ type TB struct {
 	fresh     int
 	defs      []*smtDef // define-fun(-rec) blocks, in dependency order
 	defSeen   map[string]bool
+	accessors map[string]accInfo
 }
 
 func NewTB() *TB {
@@ -131,6 +132,9 @@ func (tb *TB) DeclFun(name string, argSorts []string, ret string) string {
 func (tb *TB) App(fn, sort string, args ...*Term) *Term {
 	if len(args) == 0 {
 		return tb.mk(kConst, fn, sort)
+	}
+	if s := tb.simplifyAcc(fn, args); s != nil && s.Sort == sort {
+		return s
 	}
 	return tb.mk(kApp, fn, sort, args...)
 }
